@@ -509,12 +509,55 @@ func opReplayDev(variant int) Op {
 	}}
 }
 
+// opDiffInherit: the MySQL differ fills in what the desired state leaves to the server: the default
+// collation of a stated character set (style "charset") or the character set of a stated collation
+// (style "collate"); the current table states both, and both differ from the schema's defaults. The
+// tables it looks the defaults up in are loaded lazily and kept by the process-wide differ.
+func opDiffInherit(style string) Op {
+	return Op{"diff_inherit/mysql/" + style, func() (string, error) {
+		mk := func(desired bool) *schema.Schema {
+			s := schema.New("app").SetCharset("ascii").SetCollation("ascii_general_ci")
+			schema.NewRealm(s)
+			t := schema.NewTable("t").AddColumns(schema.NewIntColumn("id", "int"))
+			s.AddTables(t)
+			switch {
+			case style == "charset" && desired:
+				t.SetCharset("latin1")
+			case style == "charset":
+				t.SetCharset("latin1").SetCollation("latin1_swedish_ci")
+			case desired:
+				t.SetCollation("utf8mb4_bin")
+			default:
+				t.SetCharset("utf8mb4").SetCollation("utf8mb4_bin")
+			}
+			if desired {
+				t.AddColumns(schema.NewIntColumn("added", "int"))
+			}
+			return s
+		}
+		changes, err := dfu.MySQL.Diff.SchemaDiff(mk(false), mk(true))
+		if err != nil {
+			return "", err
+		}
+		plan, err := planner(dfu.MySQL).PlanChanges(context.Background(), "p", changes)
+		if err != nil {
+			return describe(changes, "") + "\nplan error: " + err.Error(), nil
+		}
+		var b strings.Builder
+		b.WriteString(describe(changes, "") + "\n")
+		for _, c := range plan.Changes {
+			b.WriteString(c.Cmd + "\n")
+		}
+		return b.String(), nil
+	}}
+}
+
 func Ops(thorough bool) []Op {
 	var ops []Op
 	for _, d := range dfu.Dialects {
 		ops = append(ops, opPlans(d, thorough), opDiffOrder(d), opMarshal(d), opEvalMarshal(d))
 	}
-	ops = append(ops, opFormat(), opChecksum(), opValidateErr(), opScopeErr(), opEvalMultiFile(), opReplayDev(0), opReplayDev(1))
+	ops = append(ops, opFormat(), opChecksum(), opValidateErr(), opScopeErr(), opEvalMultiFile(), opReplayDev(0), opReplayDev(1), opDiffInherit("charset"), opDiffInherit("collate"))
 	sort.SliceStable(ops, func(i, j int) bool { return false })
 	return ops
 }
